@@ -11,8 +11,8 @@ CLI_FLAG = {"comment": "--comment", "source": "--source", "announce": "--tracker
             "httpseeds": "--http-seed", "private": "--private"}
 
 
-def base_metafiles(tmp, rng):
-    """19 base metafiles: v1/v2/hybrid x {all optional fields, none, tracker+source} by the tool's creators; reference-encoded ones
+def base_metafiles(tmp, rng, extra=False):
+    """extra=True (C07): 6 more, see extra_metafiles.  19 base metafiles: v1/v2/hybrid x {all optional fields, none, tracker+source} by the tool's creators; reference-encoded ones
        with foreign extra keys, with several tracker tiers, with UNSORTED keys, and with an explicit `private: 0` in info.
        returns list of (label, path)"""
     out = []
@@ -68,12 +68,50 @@ def base_metafiles(tmp, rng):
             fd.write(oracle.ref_metafile("payload", files, pl, ver, extra_top={b"announce": b"http://ref/p", b"created by": b"ref"},
                                          extra_info={b"private": 0, b"source": b"p0src"}))
         out.append((f"ref-v{ver}/private0", mf))
+    if extra:
+        out += extra_metafiles(tmp, files, pl)
     return out
 
 
-def value_for(field, shape, rng):
+# text whose bytes differ between Unicode normalisation forms (NFD e + combining acute, the ANGSTROM SIGN, a ligature, a
+# full-width letter): an edit must store exactly the bytes it was given and keep exactly the bytes that were there
+NFD_TEXT = "cafe\u0301 \u212b \ufb01 \uff21"
+
+
+def extra_metafiles(tmp, files, pl):
+    """reference-encoded v1 / v2 / hybrid metafiles whose optional fields are
+       FALSY: url-list and httpseeds are empty lists, comment / source / created-by empty strings, private is 0 -- present keys all
+         the same: a Clear must remove them, a request that does not name them must keep them;
+       TEXT THAT IS NOT WHAT A DECODER EXPECTS: comment holds bytes that are not UTF-8 (Latin-1), source and created-by hold NFD /
+         compatibility characters, a web seed holds non-UTF-8 bytes, and one top-level and one info key are themselves not UTF-8
+         (pyben hands such strings back as bytes, the others as str): unnamed fields must survive byte for byte"""
+    out = []
+    for ver in (1, 2, 3):
+        mf = os.path.join(tmp, "base", f"falsy-v{ver}.torrent")
+        with open(mf, "wb") as fd:
+            fd.write(oracle.ref_metafile("payload", files, pl, ver,
+                                         extra_top={b"announce": b"http://ref/f", b"url-list": [], b"httpseeds": [], b"created by": b""},
+                                         extra_info={b"private": 0, b"source": b"", b"comment": b""}))
+        out.append((f"ref-v{ver}/falsy", mf))
+        mf = os.path.join(tmp, "base", f"textbytes-v{ver}.torrent")
+        with open(mf, "wb") as fd:
+            fd.write(oracle.ref_metafile("payload", files, pl, ver,
+                                         extra_top={b"announce": b"http://ref/t", b"created by": ("Cre\u0301ateur " + NFD_TEXT).encode(),
+                                                    b"url-list": [b"http://w/\xe9\xff", b"http://w/ok"], b"x-\xff": 1},
+                                         extra_info={b"comment": b"caf\xe9 \xff\xfe", b"source": NFD_TEXT.encode(), b"y-\xfe\xe9": b"v"}))
+        out.append((f"ref-v{ver}/textbytes", mf))
+    return out
+
+
+def value_for(field, shape, rng, uni=False):
     if field == "private":
         return rng.choice(["1", True, 1])       # the command line passes True
+    if uni:                                     # not NFC, not ASCII (no Unicode white space: str.split is modelled on ASCII)
+        if shape == "str":
+            return {"comment": NFD_TEXT + " comment", "source": "S\u0327 \u65e5\u672c", "announce": "http://n/e\u0301 http://n/2",
+                    "url-list": "http://nw/\u212b  http://nw/2", "httpseeds": "http://nh/\ufb01"}[field]
+        return {"comment": "c\u0301", "source": "\uff33", "announce": ["http://l/\u00e9", "http://l/e\u0301"],
+                "url-list": ["http://lw/\u212b"], "httpseeds": ["http://lh/1", "http://lh/\u00c5"]}[field]
     if shape == "str":
         return {"comment": "new comment text", "source": "NEWSRC", "announce": "http://n/1 http://n/2",
                 "url-list": "http://nw/1  http://nw/2", "httpseeds": "http://nh/1"}[field]
@@ -81,8 +119,9 @@ def value_for(field, shape, rng):
             "url-list": ["http://lw/1"], "httpseeds": ["http://lh/1", "http://lh/2"]}[field]
 
 
-def all_requests(tier, rng):
-    """every assignment of Keep / Clear / Set to the six fields (3^6 = 729); the value shape (str or list) alternates"""
+def all_requests(tier, rng, uni=False):
+    """every assignment of Keep / Clear / Set to the six fields (3^6 = 729); the value shape (str or list) alternates; uni=True
+       (C07): every fourth request sets values that are not ASCII and not NFC"""
     reqs = []
     for n, combo in enumerate(itertools.product(("keep", "clear", "set"), repeat=6)):
         req = {}
@@ -90,7 +129,7 @@ def all_requests(tier, rng):
             if c == "clear":
                 req[f] = ""
             elif c == "set":
-                req[f] = value_for(f, "str" if (n + len(f)) % 2 else "list", rng)
+                req[f] = value_for(f, "str" if (n + len(f)) % 2 else "list", rng, uni=uni and n % 4 == 1)
             elif (n + len(f)) % 3 == 0:
                 req[f] = None          # an explicit None is the same as an absent key
         reqs.append((combo, req))
@@ -119,16 +158,17 @@ def cli_argv(mf, req):
     return argv
 
 
-def enumerate_edits(ctx, visit, want_cli=True, skip=None):
-    """visit(label, request, via, before_raw, after_raw or None, exception or None)"""
+def enumerate_edits(ctx, visit, want_cli=True, skip=None, extra=False):
+    """visit(label, request, via, before_raw, after_raw or None, exception or None); extra=True (C07): the falsy / text-bytes bases
+       and the non-ASCII values as well"""
     core.use_repo_in_process()
     from torrentfile.edit import edit_torrent
     from torrentfile.cli import execute
     import shutil
     with core.Scratch("vedit_") as tmp:
         os.environ["HOME"] = tmp
-        bases = base_metafiles(tmp, ctx.rng)
-        reqs = all_requests(ctx.tier, ctx.rng)
+        bases = base_metafiles(tmp, ctx.rng, extra=extra)
+        reqs = all_requests(ctx.tier, ctx.rng, uni=extra)
         work = os.path.join(tmp, "w.torrent")
         sampled = False
         for label, mf in bases:
@@ -138,6 +178,10 @@ def enumerate_edits(ctx, visit, want_cli=True, skip=None):
             for n, (combo, req) in enumerate(reqs):
                 # quick tier: the private=0 bases differ from ref-vN only in that key: every request that Sets private, a fixed third of the rest
                 if ctx.tier == "quick" and label.endswith("/private0") and combo[2] != "set" and n % 3:
+                    sampled = True
+                    continue
+                # quick tier, falsy / text-bytes bases: every request that names exactly one field, a fixed third of the others
+                if ctx.tier == "quick" and label.endswith(("/falsy", "/textbytes")) and n % 3 and sum(c != "keep" for c in combo) != 1:
                     sampled = True
                     continue
                 for via in (("lib", "cli") if want_cli else ("lib",)):
